@@ -468,6 +468,10 @@ func (p c14) special(c *core.Ctx, k int) {
 		sp{name: "deviation-missing-rpc-output", text: hdr("m") + "rpc r { input { leaf i { type string; } } } deviation \"/r/output\" { deviate not-supported; } }"},
 		sp{name: "leafref-thru-missing-rpc-output", text: hdr("m") + "rpc r { input { leaf i { type string; } } } leaf l { type leafref { path \"/r/output/o\"; } } }"},
 		sp{name: "augment-rpc-input-and-output", text: hdr("m") + "rpc r { input { leaf i { type string; } } output { leaf o { type string; } } } augment \"/r/input\" { leaf c { type string; } } augment \"/r/output\" { leaf d { type string; } } }"},
+		sp{name: "leafref-cycle-two", text: hdr("m") + "container c { leaf a { type leafref { path \"../b\"; } } leaf b { type leafref { path \"../a\"; } } } }"},
+		sp{name: "leafref-self", text: hdr("m") + "container c { leaf a { type leafref { path \"../a\"; } } } }"},
+		sp{name: "leafref-cycle-three-typedef", text: hdr("m") + "typedef ra { type leafref { path \"../b\"; } } container c { leaf a { type ra; } leaf b { type leafref { path \"../c\"; } } leaf-list c { type leafref { path \"../a\"; } } } }"},
+		sp{name: "leafref-chain", text: hdr("m") + "container c { leaf a { type leafref { path \"../b\"; } } leaf b { type leafref { path \"../c\"; } } leaf c { type int32; } } }"},
 		sp{name: "if-feature-deep-parens", text: hdr("m") + "feature f; leaf x { if-feature \"" + strings.Repeat("(", 20000) + "f" + strings.Repeat(")", 20000) + "\"; type string; } }"},
 	)
 	if k >= len(specials) {
